@@ -42,8 +42,19 @@ enum Tag
   T_ARRAYVIEW_INT,
   T_OWNEDARRAY_F64,
   T_FIXEDARRAY_U8,
+  T_LONG_STRING,   // a string around / beyond 64 KiB (length from a table), read into a NON-EMPTY destination
+  T_VEC_CSTR,      // std::vector<const char *>: written element-wise as strings, read back as vector<string>
   T_NTAGS
 };
+inline std::string longString(long long n)
+{
+  static const size_t lens[] = {65535, 65536, 65537, 70000, 131073};
+  size_t len = lens[(size_t)((n % 5 + 5) % 5)];
+  std::string s(len, 'x');
+  for (size_t i = 0; i < len; i += 97)
+    s[i] = (char)('a' + (i * 7 + (size_t)(n & 0xff)) % 26);
+  return s;
+}
 
 struct Val
 {
@@ -102,6 +113,13 @@ inline size_t expectedBytes(const Val &x)
   case T_ARRAYVIEW_INT: return 8 + 4 * x.v.size();
   case T_OWNEDARRAY_F64: return 8 + 8 * x.v.size();
   case T_FIXEDARRAY_U8: return 8 + x.v.size();
+  case T_LONG_STRING: return 8 + longString(x.n).size();
+  case T_VEC_CSTR: {
+    size_t t = 8;
+    for (auto &s : x.vs)
+      t += 8 + cstrOf(s).size();
+    return t;
+  }
   }
   return 0;
 }
@@ -148,6 +166,17 @@ inline void writeVal(WriteStream &w, const Val &x)
     w << static_cast<const AbstractArray<uint8_t> &>(fa);
     break;
   }
+  case T_LONG_STRING: w << longString(x.n); break;
+  case T_VEC_CSTR: {
+    std::vector<std::string> keep;
+    for (auto &s : x.vs)
+      keep.push_back(cstrOf(s));
+    std::vector<const char *> ptrs;
+    for (auto &s : keep)
+      ptrs.push_back(s.c_str());
+    w << ptrs;
+    break;
+  }
   }
 }
 // reads one value and compares it with what was written
@@ -178,6 +207,20 @@ inline void readAndCheck(ReadStream &r, const Val &x)
       want.push_back((uint8_t)e);
     r >> g;
     PBT_ASSERT_MSG(g == want, "FixedArray<uint8_t> read back differs");
+    break;
+  }
+  case T_LONG_STRING: {
+    std::string g = "previous content of a reused receive buffer";
+    r >> g;
+    PBT_ASSERT_MSG(g == longString(x.n), "long string (" << longString(x.n).size() << " chars) read back differs: got " << g.size() << " chars");
+    break;
+  }
+  case T_VEC_CSTR: {
+    std::vector<std::string> g = {"junk"}, want;
+    for (auto &s : x.vs)
+      want.push_back(cstrOf(s));
+    r >> g;
+    PBT_ASSERT_MSG(g == want, "vector<const char*> read back as vector<string> differs");
     break;
   }
   }
